@@ -60,7 +60,10 @@ def gen_cases(ctx):
                                            {"remove_completed_job_nodes": False}]),
                "filter": rng.choice([None, "default", {"names": ["dominated_operations"], "form": "function"},
                                      {"names": ["non_idle_machines"], "form": "function"}]),
-               "padding": rng.random() < 0.85, "seed": rng.randrange(2**31)}
+               "padding": rng.random() < 0.85, "seed": rng.randrange(2**31),
+               # the user may have removed a non-operation node (source, a machine node, ...)
+               # from the graph before handing it to the environment
+               "prune": rng.choice([0, 0, 0, 1, 2, 5])}
     for i in range(ctx.scale(200, 24000)):
         style = ["classic", "classic", "recirc", "flexible"][i % 4]
         lo_j = rng.randint(2, 3); lo_m = rng.randint(2, 3)
@@ -219,7 +222,12 @@ def run_single(ctx, case):
     kw = {}
     if case["filter"] != "default":
         kw["ready_operations_filter"] = gen.make_filter(case["filter"])
-    env = SingleJobShopGraphEnv(builders()[case["builder"]](instance), feats,
+    graph = builders()[case["builder"]](instance)
+    if case.get("prune") and len(graph.nodes) > instance.num_operations:
+        graph.remove_node(instance.num_operations
+                          + case["prune"] % (len(graph.nodes) - instance.num_operations))
+        ctx.count("single_env_built_from_a_pruned_graph")
+    env = SingleJobShopGraphEnv(graph, feats,
                                 reward_function_config=rw, graph_updater_config=up,
                                 use_padding=case["padding"], **kw)
     ctx.count("single_env_configs")
